@@ -331,6 +331,32 @@ fn main() {
 		"helper": "pub fn helper() { let unused_h = 1; let s: int = \"x\"; }\nfn main() {}\n",
 		"broken": "pub fn broken() { let s = \"never closed;\n}\nfn main() {}\n",
 	}}},
+	{"string-object-keys", Single(`
+type Reading = { "sensor id": int, value: float };
+fn main() {
+    let o = new { "sensor id": 7, plain: 2 };
+    println(o, o.plain);
+    let r: Reading = new { "sensor id": 3, value: 2.5 };
+    println(r.value, r);
+}`)},
+	{"options-in-compound-values", Single(`
+fn main() {
+    let lamp: { last_motion: ?int, name: str } = new { last_motion: none, name: "l" };
+    println("before:", lamp.last_motion);
+    lamp.last_motion = ?17;
+    println(lamp.last_motion);
+    let l: [?int] = [none, none];
+    l[0] = ?3;
+    println(l);
+    let again: [?int] = [none];
+    println("fresh none:", again[0], none);
+    let t = [true, false];
+    t[1] = t[0];
+    println(t, 1 == 2, 1 == 1);
+    let zero = [0, 1];
+    zero[0] = zero[0] + 5;
+    println(zero, 0, 1);
+}`)},
 	{"cast-two-wrong-fields", Single(`
 fn main() {
     try {
